@@ -55,13 +55,22 @@ func HarnessC14String() {
 		// a nested map holding several unsupported values of different types
 		data = map[string]any{"o": map[string]any{"f": func() {}, "g": func(int) string { return "" }, "c": make(chan int)}, "x": x, "y": y}
 	}
-	if vChoice("earlier-failing-render", 2) == 1 {
+	vMapOrder("insertion")
+	out0, err0 := c14String(src, data)
+	switch vChoice("earlier-failing-render", 3) {
+	case 1:
 		// a render of the same process that fails in the second pass of a loop, after the first pass produced text
 		_, ferr := EvaluateString("@each(v in [1, 0])<{{ 6 / v }}>@end", nil)
 		vAssert(ferr != nil, "faulty-template-fails")
+	case 2:
+		// a file evaluation of the same process that fails
+		vfsReset()
+		vfsWriteFile("faulty.txt", "a\n{{ 1 / 0 }}")
+		_, ferr := EvaluateFile(vfsCwd()+"/faulty.txt", nil)
+		vAssert(ferr != nil, "faulty-file-fails")
 	}
-	vMapOrder("insertion")
 	out1, err1 := c14String(src, data)
+	vAssert(vEqStr(err0, err1) && vEqStr(out0, out1), "same-result-after-an-unrelated-failing-call"+tag)
 	reps := 1
 	if vNative() {
 		reps = 300
